@@ -58,6 +58,15 @@ module BufM = struct
             (match script with
              | Buffer.CbPanic :: _ -> rollback_then s1 visited' Buffer.RePanic
              | Buffer.CbFalse :: _ | [] -> commit_then s1 (fun s2 -> add s2 visited' Buffer.ReNil)
+             | Buffer.CbPutTrue pv :: script' ->
+                 with_internal s1 (fun sp0 ->
+                   let (sp, _) = Buffer.step sp0 (Buffer.OPut [pv]) in
+                   if bounded then
+                     with_internal sp (fun sd ->
+                       let more = (match snd (Buffer.step sd (Buffer.ODiff cn)) with
+                                   | Buffer.RDiff (n, true) -> int_of_z n > 0 | _ -> false) in
+                       commit_then sd (fun s2 -> if more then loop (fuel - 1) s2 script' visited' else add s2 visited' Buffer.ReNil))
+                   else commit_then sp (fun s2 -> loop (fuel - 1) s2 script' visited'))
              | Buffer.CbTrue :: script' ->
                  if bounded then
                    with_internal s1 (fun sd ->
@@ -66,7 +75,7 @@ module BufM = struct
                      commit_then sd (fun s2 -> if more then loop (fuel - 1) s2 script' visited' else add s2 visited' Buffer.ReNil))
                  else commit_then s1 (fun s2 -> loop (fuel - 1) s2 script' visited'))
         | _ -> rollback_then s1 visited Buffer.ReErr) in
-    let fuel = 3 + L.length (Buffer.log s) in
+    let fuel = 3 + L.length (Buffer.log s) + L.length script in
     (if bounded then begin
        match Buffer.getc s cn with
        | None -> add s [] Buffer.ReErr
@@ -98,7 +107,9 @@ module BufM = struct
     | [12; c] -> Op (Buffer.ODoneC (n c)) | [13] -> Op Buffer.ODoneB | [14] -> Op Buffer.OSettled
     | [15; c] -> Op (Buffer.OProbeGet (n c)) | [16; c] -> Op (Buffer.OProbeCloseC (n c)) | [17] -> Op Buffer.OProbeCloseB
     | 100 :: c :: b :: k :: script ->
-        Range (c, b = 1, L.map (function 0 -> Buffer.CbTrue | 1 -> Buffer.CbFalse | _ -> Buffer.CbPanic) (take k script))
+        (* script entries: 0 true | 1 false | 2 panic | 1000+v put v then true *)
+        Range (c, b = 1, L.map (function 0 -> Buffer.CbTrue | 1 -> Buffer.CbFalse | 2 -> Buffer.CbPanic
+                                       | x -> Buffer.CbPutTrue (z_of_int (x - 1000))) (take k script))
     | l -> failwith ("buffer: bad op " ^ show_ints l)
   let ints_of_out = function
     | Out (Buffer.RVal v) -> [0; int_of_z v] | Out Buffer.REmpty -> [1] | Out Buffer.RErr -> [2] | Out Buffer.ROk -> [3]
